@@ -1,6 +1,6 @@
 // C17 — proposer schedule and validator-set updates are deterministic and path-independent.
 //
-// Library-level parts of the design (the in-simulation part (5) lives with the consensus simulation):
+// Parts of the design:
 //
 //	(1) path independence   every composition k = k1+..+km of IncrementAccum calls, from every state reachable by
 //	                        single steps, ends in the state of k single steps (priorities AND proposer)
@@ -11,6 +11,9 @@
 //	                        totals right, the original of a Copy untouched; consensus.updateStatus gives one next
 //	                        set for every order of the same application output (hook: hooks/consensus/c17_hooks.go)
 //	(4) saturation          totals and priorities equal exact arithmetic clipped to int64 (validated against math/big)
+//	(5) in simulation       a real ConsensusState (harness/csnet) reaches (height 1, round r) by stepping through the
+//	                        rounds, by jumping on +2/3 votes of a later round, and by every mixture: same proposer on
+//	                        every path, equal to the single-step reference, and its proposal is accepted (sim.go)
 //
 // Everything is enumerated exhaustively inside the bounds printed in the evidence; nothing is sampled.
 package main
@@ -30,6 +33,11 @@ import (
 )
 
 type replayCase struct {
+	SimPowers []string `json:"sim_powers_by_validator_index"`
+	Node      int      `json:"node"`
+	Round     int      `json:"round"`
+	Moves     [][2]int `json:"moves"`
+
 	Powers  []string `json:"powers_by_address"`
 	Before  int      `json:"single_steps_before"`
 	Incs    []int    `json:"increments"`
@@ -54,6 +62,18 @@ func parsePower(s string) int64 {
 func replay(r *vk.Run) {
 	var c replayCase
 	r.LoadReplay(&c)
+	if len(c.SimPowers) > 0 {
+		var p []int64
+		for _, x := range c.SimPowers {
+			p = append(p, parsePower(x))
+		}
+		if !replaySim(p, c.Node, c.Round, c.Moves) {
+			fmt.Printf("VIOLATION property=C17 replay=%s key=%s :: replayed: the paths name different proposers\n", r.ReplayPath, keySkipStep)
+			os.Exit(1)
+		}
+		fmt.Println("C17 replay: all paths name the reference proposer")
+		os.Exit(0)
+	}
 	if len(c.Powers) == 0 || len(c.Incs) == 0 {
 		vk.Fatalf("replay: only rotation cases (powers_by_address + increments) are replayable from the file; search cases list their operations by name (%v)", c.OpNames)
 	}
@@ -128,6 +148,12 @@ func main() {
 		depth int
 	}
 	usRuns := []usRun{{usCfg{ids: 3, powers: []int64{1, 3}, altCB: true}, 3}}
+	type simRun struct {
+		alpha  []int64
+		rounds int
+		full   bool
+	}
+	simRuns := []simRun{{[]int64{1, 2, 3}, 4, false}}
 	if !r.Quick() {
 		ordAlpha = []int64{1, 2, 3, 5, 10, 100}
 		ordMaxN = 5
@@ -138,6 +164,7 @@ func main() {
 		permExtra = enumSets([]int64{1, 3}, 6, 6)
 		setSearch = setCfg{ids: 4, powers: []int64{1, 3, M/2 + 1}, altCB: true}
 		setDepth = 6
+		simRuns = []simRun{{[]int64{1, 2, 3}, 4, true}, {[]int64{1, 2, 3, 5}, 4, false}}
 		usRuns = []usRun{{usCfg{ids: 3, powers: []int64{1, 3}, altCB: true}, 5}, {usCfg{ids: 4, powers: []int64{1, 3}, altCB: true}, 2}}
 	}
 
@@ -294,18 +321,26 @@ func main() {
 	phase("updateStatus search (3b)")
 	r.Set("update_status_search", usEv)
 
+	// ---------------- (5) real consensus nodes: stepping vs jumping ----------------
+	var simEv []interface{}
+	for _, sr := range simRuns {
+		simEv = append(simEv, runSim(r, enumSets(sr.alpha, 4, 4), sr.alpha, sr.rounds, sr.full))
+	}
+	r.Set("simulation", simEv)
+	phase("consensus nodes (5)")
+
 	// ---------------- coverage ----------------
 	r.Set("arith_selftest_cases", arith)
 	r.Set("states", states+ss.States+us.States)
-	r.Set("transitions", calls+ss.Transitions+us.Transitions)
-	r.Set("traces_validated_against_impl", calls+perms+ss.Transitions+int(usPerms))
-	r.Set("evaluations", comps+perms+ss.Transitions+int(usPerms))
+	r.Set("transitions", calls+ss.Transitions+us.Transitions+r.Get("sim_inputs"))
+	r.Set("traces_validated_against_impl", calls+perms+ss.Transitions+int(usPerms)+r.Get("sim_inputs"))
+	r.Set("evaluations", comps+perms+ss.Transitions+int(usPerms)+r.Get("sim_node_runs"))
 	r.Set("distinct_nontrivial", states+ss.States+us.States)
 	r.Set("rule", "rotation: every composition of k increments from every single-step-reachable state of every enumerated set is executed on the real ValidatorSet and compared with k single steps; single steps are compared with an independent reference (saturating arithmetic validated against math/big); set-ops and updateStatus: BFS over operation sequences on the real code, state = reference content + priorities + proposer cache (+copy/reload flags); non-trivial = distinct canonical state")
 	r.Assume("voting powers are >= 1 (genesis rejects 0; negative powers are outside the bound)")
 	r.Assume("validator lists handed to NewValidatorSet/updateStatus have distinct addresses (a duplicated address makes the set depend on list order; the application builds its list from two contract tables, see report)")
 	r.Assume("Update/Add are called with Accum=0 validators, as every caller in the tree does")
-	r.Assume("the in-simulation part (nodes that skip rounds vs nodes that step) is decided by the consensus simulation check, not here")
+	r.Assume("simulation part: one real ConsensusState per run at height 1 with a trivial application (csnet.TrivApp); the other validators are puppets that send correctly signed nil votes; jumps are triggered by +2/3 nil prevotes of the target round or +2/3 nil precommits of the round before it")
 	r.Assume("proportionality is asserted only for sets in which no saturation occurs inside the window; for saturating sets it is measured and reported")
 	r.Finish()
 }
